@@ -2,7 +2,7 @@
 from .. import cfg, util, variants, translator as TR
 from ..core import RuleResult, need
 from ..facts import callee, op_local, op_place
-from ..origins import Origins, calls_in
+from ..origins import Origins, calls_in, results_in
 
 IR = "ucglib::build::ir::"
 CHECK = IR + "ConstraintVal::check"
@@ -334,4 +334,100 @@ def r66s(F):
     return r
 
 
-RULES = [r18, r19, r20, r66, r66s]
+def r18e(F):
+    r = RuleResult("R18e", "equality of lists and tuples compares their lengths",
+                   "in Val::equal (the comparison behind `==` and behind the exact arms of an alternation) the List and the Tuple arm "
+                   "compare the two lengths before (or instead of) walking the elements pairwise -- a pairwise walk alone (zip) stops at "
+                   "the shorter side, so a tuple equals every tuple it is a prefix of and `{}` equals every tuple", floor=2, exhaustive=True)
+    fn = F.fn("ucglib::build::ir::Val::equal")
+    o = Origins(fn)
+    VAL = "ucglib::build::ir::Val"
+    loops = cfg.natural_loops(fn)
+    for v in ("List", "Tuple"):
+        arm = TR.arm_blocks(fn, VAL, v)
+        need(arm, "Val::equal has no arm for %s" % v)
+        cmps = []
+        for b, j, pl, rv, m in fn.assigns():
+            if b in arm and rv["k"] == "bin" and rv["op"] in ("Eq", "Ne") and rv.get("ty") == "usize":
+                if all(any(c.endswith("::len") for c in results_in(o.at(x, b))) for x in rv["ops"]):
+                    cmps.append(b)
+        whole = [b for b, t in fn.calls() if b in arm and callee(t).split("::")[-1] in ("eq", "ne") and
+                 ("Iterator" in callee(t) or "alloc::vec::Vec" in fn.local_ty(op_local(t["args"][0]) or 0))]
+        arm_loops = [h for h, body in loops.items() if h in arm]
+        ok = bool(whole) or (bool(cmps) and all(any(cfg.dominates(fn, c, h) for c in cmps) for h in arm_loops))
+        r.inst("equal:%s:lengths" % v, fn.where(min(arm)), ok,
+               "the lengths are compared before the pairwise walk" if ok else
+               "the %s arm of Val::equal walks the two sides pairwise without comparing their lengths: a %s equals any longer %s it is a "
+               "prefix of (an alternation of tuple literals admits values with extra or missing fields)" % (v, v.lower(), v.lower()))
+    return r
+
+
+def r20m(F):
+    r = RuleResult("R20m", "the narrowing memo answers only for the very shape it was filled with",
+                   "the closure that searches Shape::narrow_cached's memo of (constraint name, shape, result) compares with exact "
+                   "equality only (PartialEq::eq): a looser relation (Shape::equivalent treats [] as any list and a tuple as any tuple "
+                   "with more fields) lets an entry recorded for a conforming value answer for a non-conforming one", floor=1)
+    name = "ucglib::ast::Shape::narrow_cached"
+    fn = F.fn(name)
+    finds = [(b, t) for b, t in fn.calls() if callee(t).split("::")[-1] in ("find", "any", "position")]
+    need(finds, "narrow_cached: memo search not found")
+    closures = [F.fns[c] if isinstance(c, str) else c for c in F.closures_of(name)]
+    # the closures handed to the search
+    searched = []
+    for b, t in finds:
+        for a in t["args"]:
+            l = op_local(a)
+            if l is not None:
+                ty = fn.local_ty(l)
+                for cf in closures:
+                    if cf.name.split("::")[-1] in ty or "closure" in ty and cf.name.split("{")[-1].rstrip("}") in ty:
+                        searched.append(cf)
+    if not searched:
+        searched = [cf for cf in closures if not any(callee(t) == name for b, t in cf.calls())]
+    need(searched, "narrow_cached: the closure of the memo search was not identified")
+    for cf in searched:
+        cs = [callee(t) for b, t in cf.calls()]
+        loose = [c for c in cs if not (c.endswith("::eq") or c.endswith("::ne") or c.endswith(("::deref", "::as_ref", "::borrow", "::clone")))]
+        r.inst("memo-search:%s" % cf.name.split("::")[-1], cf.where(), not loose,
+               "exact equality on name and shape" if not loose else
+               "the memo search compares with %s: an entry recorded for one shape answers for another" % ", ".join(x.split("::")[-1] for x in loose))
+    return r
+
+
+def r19n(F):
+    r = RuleResult("R19n", "the checker counts module nesting",
+                   "the state the checker keeps between visit_expression and leave_expression of a Module (while it is set, statements "
+                   "of the module body are skipped by the file-level pass) is a counter incremented on the way in and decremented on "
+                   "the way out: a boolean flag is cleared by the first inner module that ends, while the walker is still inside the "
+                   "outer body, and the file-level symbol table is then overwritten with the module's private bindings", floor=1)
+    CH = "ucglib::ast::typecheck::Checker"
+    V = "<ucglib::ast::typecheck::Checker as ucglib::ast::walk::Visitor>::"
+    seen = {}
+    for n in ("visit_expression", "leave_expression"):
+        fn = F.fn(V + n)
+        o = Origins(fn)
+        for b, j, pl, rv, m in fn.assigns():
+            fs = [e.get("f") for e in pl["p"] if isinstance(e, dict) and "f" in e]
+            if not fs or fn.local_adt(pl["l"]) != CH:
+                continue
+            labs = o.at(rv["ops"][0], b) if rv.get("ops") else set()
+            kind = "const" if rv["k"] == "use" and ("int" in rv["ops"][0] or "const" in rv["ops"][0]) else \
+                ("add" if any(l[0] == "bin" and l[1] in ("Add", "AddWithOverflow") for l in labs) else
+                 "sub" if any(l[0] == "bin" and l[1] in ("Sub", "SubWithOverflow") for l in labs) else "other")
+            seen.setdefault(fs[0], {})[n] = (kind, fn, b)
+    both = {f: d for f, d in seen.items() if len(d) == 2}
+    need(both, "no Checker field is written by both visit_expression and leave_expression")
+    adt = F.adts[CH]
+    tys = {f["name"]: f["ty"] for v in adt["variants"] for f in v["fields"]}
+    for f, d in sorted(both.items()):
+        ty = tys.get(f, "?")
+        ok = ty in ("usize", "u32", "u64", "i32", "i64", "isize") and d["visit_expression"][0] == "add" and d["leave_expression"][0] == "sub"
+        fn, b = d["visit_expression"][1], d["visit_expression"][2]
+        r.inst("Checker.%s" % f, fn.where(b), ok,
+               "%s: +1 on visit, -1 on leave" % ty if ok else
+               "Checker.%s (%s) is set with %s on visit and %s on leave: it cannot tell a module inside a module from the end of the outer one"
+               % (f, ty, d["visit_expression"][0], d["leave_expression"][0]))
+    return r
+
+
+RULES = [r18, r19, r20, r66, r66s, r18e, r20m, r19n]
